@@ -10,7 +10,9 @@ Case (driver "cut"):
    "post_cmds": 0..4 commands submitted after the loss, "post_wd": 0..2 requests after the loss,
    "resubmit": n  every session command's errback submits n further commands (a retry handler running
                   *during* connectionLost), "wd_reenter": the first when_disconnected() observer, while being
-                  notified, requests notification again and submits a command}
+                  notified, requests notification again and submits a command,
+   "lose_in_cb": null | k  the reply handler of command k (mod) drops the connection and the loss is reported
+                  synchronously, from inside dataReceived (as twisted's StringTransportWithDisconnection does)}
 Driver "allcuts": same without "cut"; runs the session once per byte offset 0..len(stream).
 """
 from __future__ import annotations
@@ -50,14 +52,15 @@ REASONS = {
 
 
 def sessions():
-    return st.builds(lambda c, s, r, pre, pc, pw, rs, wr: {"cmds": c, "sched": s, "reason": r, "pre_wd": pre,
-                                                           "post_cmds": pc, "post_wd": pw, "resubmit": rs,
-                                                           "wd_reenter": wr},
+    return st.builds(lambda c, s, r, pre, pc, pw, rs, wr, lic: {"cmds": c, "sched": s, "reason": r, "pre_wd": pre,
+                                                                "post_cmds": pc, "post_wd": pw, "resubmit": rs,
+                                                                "wd_reenter": wr, "lose_in_cb": lic},
                      st.lists(c01.commands(long=False, max_parts=3), min_size=0, max_size=5),
                      c01.schedules(),
                      st.sampled_from(["done", "lost", "other"]),
                      st.integers(0, 2), st.integers(0, 4), st.integers(0, 2),
-                     st.sampled_from([0, 0, 1, 2]), st.booleans())
+                     st.sampled_from([0, 0, 1, 2]), st.booleans(),
+                     st.one_of(st.none(), st.none(), st.none(), st.integers(0, 4)))
 
 
 @st.composite
@@ -88,6 +91,8 @@ class _CutRun(object):
         self.cut_inside_reply = False
         self.wd_reentered = False
         self.resubmitted = 0
+        self.lost_in_callback = False
+        self.effective_cut = None
 
         self.srv = ScriptedServer(self._handler)
         self.pipe = ControlPipe(self.srv, auto=False)
@@ -168,6 +173,19 @@ class _CutRun(object):
             lines.append(None) if len(lines) == len(watches) else None
             watches.append(None)
             return
+        lic = self.case.get("lose_in_cb")
+        if lic is not None and watches is self.watches and len(watches) == lic % max(1, len(self.cmds)):
+            # the application's handler for this command's reply drops the connection and the transport reports the
+            # loss synchronously, from inside dataReceived (what twisted's StringTransportWithDisconnection does)
+            def drop(r):
+                if not self.lost:
+                    self.lost_in_callback = True
+                    self.pipe.transport.disconnecting = True
+                    self.effective_cut = self.reply_ends.get(len_before, self.pipe.delivered)
+                    self._lose()
+                return r
+            len_before = len(watches)
+            d.addBoth(drop)
         n = self.case.get("resubmit", 0)
         if n and watches is self.watches:
             # a retry handler: when this command fails, its errback submits n commands at once
@@ -224,7 +242,9 @@ def _judge(case, cut, res):
     r = _CutRun(case, cut)
     r.run()
     pipe = r.pipe
-    where = " [cut=%d]" % cut
+    if r.effective_cut is not None:
+        cut = r.effective_cut
+    where = " [cut=%d%s]" % (cut, ", lost from inside a reply callback" if r.lost_in_callback else "")
     if r.raised:
         what, exc = r.raised[0]
         tag = "api-raised-after-loss" if r.lost else "api-raised"
@@ -286,6 +306,8 @@ def _classify(res, r, case):
         res.label("resubmit-from-errback-during-loss")
     if r.wd_reentered:
         res.label("request-from-inside-disconnect-notification")
+    if r.lost_in_callback:
+        res.label("loss-reported-from-inside-a-reply-callback")
     return (r.cut_inside_reply and r.queued_behind_at_cut >= 1) or submitted_after >= 2
 
 
@@ -362,4 +384,4 @@ MUTANTS = [
 
 def run(ctx):
     ctx.search("cut", cut_cases(), quick=1500, thorough=8000)
-    ctx.search("allcuts", sessions(), quick=150, thorough=800)
+    ctx.search("allcuts", sessions(), quick=100, thorough=800)
